@@ -90,8 +90,8 @@ theorem C07_refused (d : Durable) (l : Log) (hrep : Rep d l) :
 /-- **An append that reports failure leaves the store as it was**, for every
 single injected I/O fault (short write of any length, write error, index-commit
 error, truncate error, at any step); an append the fault does not reach
-succeeds as specified.  (Block-header store; the filter-header store's
-`WriteHeaders` has the same three steps.) -/
+succeeds as specified.  (Block-header store; `C07_failed_filter_append_unchanged`
+is the same statement for the filter-header store.) -/
 theorem C07_failed_append_unchanged (d : Durable) (l : Log) (ids : List Nat) (k : FaultKind) (fs a : Nat)
     (hrep : Rep d l) (hc : Contract l (.wb ids)) :
     let r := exec d (.wb ids) (.fault k fs a)
@@ -100,6 +100,27 @@ theorem C07_failed_append_unchanged (d : Durable) (l : Log) (ids : List Nat) (k 
   have hlenB := len_pred_succ hrep.neB
   have := writeBlocks_fault d l ids k fs a hrep hc.1 hc.2
   simpa [exec, hbt, hlenB, Log.apply] using this
+
+theorem C07_failed_filter_append_unchanged (d : Durable) (l : Log) (fids : List Nat) (k : FaultKind) (fs a : Nat)
+    (hrep : Rep d l) (hc : Contract l (.wf fids)) :
+    let r := exec d (.wf fids) (.fault k fs a)
+    (r.2 = .err ∧ r.1 = d) ∨ (r.2 = .ok ∧ Rep r.1 (l.apply (.wf fids))) := by
+  obtain ⟨b, hft⟩ := rep_ftipHeight hrep
+  have hroom : l.filters.length + fids.length ≤ l.blocks.length := hc
+  by_cases he : fids.isEmpty = true
+  · have : fids = [] := by simpa using he
+    subst this
+    have := writeFilters_fault d l [] 0 k fs a hrep hroom (fun h => absurd rfl h)
+    simpa [exec, hft, Log.apply] using this
+  · have hne : fids ≠ [] := by intro hc'; subst hc'; simp at he
+    have hpos : 0 < fids.length := List.length_pos_iff.mpr hne
+    have h0 : 0 < l.filters.length := List.length_pos_iff.mpr hrep.neF
+    obtain ⟨last, hlast⟩ : ∃ x, l.blocks[l.filters.length - 1 + fids.length]? = some x :=
+      ⟨_, List.getElem?_eq_getElem (by omega)⟩
+    have hg : d.bf.get? (l.filters.length - 1 + fids.length) = some last := by
+      simp [FileSt.get?, hrep.bents, hlast]
+    have := writeFilters_fault d l fids last k fs a hrep hroom (fun _ => hlast)
+    simpa [exec, hft, he, hg, Log.apply] using this
 
 /-! Non-vacuity. -/
 example : ContractAll Log.init [.wb [1, 2, 3], .wf [1, 2], .rb 1, .rf, .rollto 1] := by
